@@ -34,6 +34,9 @@ let show_spec = function Some p -> show_pair p | None -> "-"
 let show_class = function Some n -> string_of_int (int_of_n n) | None -> "-"
 let crash = function Util.Crash s -> Printf.sprintf "CRASH%d" (int_of_n s) | _ -> "FUEL"
 
+(* argv[1] = "fixed": mirror the repaired cast_num (finding C08-1 fixed) *)
+let fx = Array.length Sys.argv > 1 && Sys.argv.(1) = "fixed"
+
 let () =
   iter_lines (fun line ->
     let out =
@@ -41,7 +44,7 @@ let () =
         match List.filter (fun s -> s <> "") (split_on ' ' (String.trim line)) with
         | ["B"; l; r; op; a; b] ->
           let l = ty_of l and r = ty_of r and op = binop_of op and a = z_of_hex a and b = z_of_hex b in
-          let m, cm = match NumOpsF.m_binary l r op a b with
+          let m, cm = match NumOpsF.m_binary_v fx l r op a b with
             | Util.Ok (Val v) -> show_val v, show_val (NumOpsF.m_remat v)
             | Util.Ok Trap -> "TRAP", "TRAP"
             | Util.Ok Fault -> "FAULT", "FAULT"
@@ -56,7 +59,7 @@ let () =
           Printf.sprintf "%s %s %s -" m cm (show_spec (NumSpec.spec_unop t op a))
         | ["C"; f; t; a] ->
           let f = ty_of f and t = ty_of t and a = z_of_hex a in
-          let m, cm = match NumOpsF.m_cast f t a with
+          let m, cm = match NumOpsF.m_cast_v fx f t a with
             | Util.Ok v -> show_val v, show_val (NumOpsF.m_remat v)
             | e -> crash e, crash e in
           Printf.sprintf "%s %s %s %s" m cm (show_spec (NumSpecF.spec_cast_any f t a))
